@@ -306,6 +306,9 @@ class SimProcess:
         simos = self.simos
         sim.yp('p.start', self.ordinal)
         flavour = self.requested if self.requested in ('fork', 'spawn') else simos.default_method
+        if flavour == 'spawn':
+            # Popen._launch() of the spawn start method first makes sure the resource tracker is running
+            simos.ensure_tracker_running()
         if flavour == 'fork':
             memo: dict = {}
             args = fork_clone(self._args, memo)
@@ -332,9 +335,10 @@ class SimProcess:
         else:
             ent.log_handlers = []
         ent.tags['boot'] = simos.spawn_boot_steps if flavour == 'spawn' else 0
-        # a forked child inherits the signal mask of the thread that forked it; a spawned child starts with an
-        # empty mask (measured on CPython 3.12: multiprocessing's fork_exec does not carry the mask across)
-        ent.tags['sigint_blocked'] = bool(simos.main_blocked) if flavour == 'fork' else False
+        # a child inherits the signal mask of the thread that started it, under fork and under spawn (the
+        # mask survives fork_exec; measured on CPython 3.12).  What made the first spawned worker of an
+        # interpreter start with an empty mask is the resource tracker, see ensure_tracker_running().
+        ent.tags['sigint_blocked'] = bool(simos.main_blocked)
         t = find_task((self._args, self._kwargs))
         if t is not None:
             ent.node = getattr(t, 'ident', None)     # lets the fault planner target this worker before run() begins
@@ -466,6 +470,17 @@ class SimContext:
         return self.simos.cpu_count
 
 
+class ResourceTrackerShim:
+    """multiprocessing.resource_tracker"""
+
+    def __init__(self, simos: 'SimOS'):
+        self._simos = simos
+
+    def ensure_running(self):
+        self._simos.sim.yp('tracker.ensure_running')
+        self._simos.ensure_tracker_running()
+
+
 class MPShim:
     """Stands in for the `multiprocessing` module object."""
 
@@ -477,6 +492,10 @@ class MPShim:
 
     def Manager(self):
         return SimManager(self._simos)
+
+    @property
+    def resource_tracker(self):
+        return ResourceTrackerShim(self._simos)
 
     def Process(self, *a, **kw):
         return SimProcess(self._simos, 'default', *a, **kw)
@@ -792,6 +811,7 @@ class SimOS:
         self.main_blocked = False             # SIGINT blocked in the calling thread (pthread_sigmask)
         self.main_pending_sigint = False
         self.on_main_unblocked = None
+        self.tracker_running = False          # multiprocessing's resource tracker (started by the first spawn)
         self.on_main_rpc = None               # called between request and reply of a proxy call of the calling thread
         self.main_rpcs = 0
         self.main_conns: dict = {}            # manager id -> replies left unread on the calling thread's connection
@@ -804,6 +824,20 @@ class SimOS:
         self.brief_fn = None
 
     # -- helpers used by the shims
+    def ensure_tracker_running(self) -> None:
+        """multiprocessing.resource_tracker.ensure_running(): the first time (per interpreter) it spawns the
+        tracker process with SIGINT and SIGTERM blocked and afterwards *unblocks* them in the calling
+        thread, whatever the mask was before (bpo-33613).  A pending SIGINT is delivered then."""
+        if self.tracker_running:
+            return
+        self.tracker_running = True
+        me = self.sim.me()
+        self.sim.ev('resource-tracker-started', me.name if me else None, 'sigint-was-blocked' if self.main_blocked else 'sigint-was-unblocked')
+        if me is self.sim.main:
+            if self.main_blocked:
+                self.sim.fired('tracker-start-unblocked-sigint')
+            SignalShim(self).pthread_sigmask(_real_signal.SIG_UNBLOCK, {_real_signal.SIGINT})
+
     def new_manager_id(self) -> int:
         self.managers += 1
         return self.managers - 1
